@@ -233,10 +233,13 @@ CLAIMED = {
         "steps run; arnoldi_eigs: eig applied to the square part H[:-1], Ritz vector i = Q[:, :m] y_i. The Arnoldi relation itself is PROVED from the real code's "
         "outputs by the invariant rule: fold invariant A q_idx = w_t + sum_{l<t} h_t[l] Q_l (initially; preserved by the real Gram-Schmidt step), hence "
         "(A q_idx)[r] = sum_{l<idx+2} H'[l,idx] Q'[r,l] for the new column when the normalisation is not clipped, H'[l,idx] = 0 below the sub-diagonal, "
-        "sub-diagonal entry = ||w|| >= 0, older columns untouched (with reachability covers on the hypotheses).",
+        "sub-diagonal entry = ||w|| >= 0, older columns untouched (with reachability covers on the hypotheses). ORTHONORMALITY of the new basis vector is "
+        "proved as well (finite-sum algebra, sympy back end): given orthonormal Q_0..Q_idx, the invariant <Q_l, w_t> = 0 (l < t) is preserved by the real "
+        "Gram-Schmidt step (cases l < t and l = t), hence <Q_l, Q'_{idx+1}> = 0 for l <= idx and <Q'_{idx+1}, Q'_{idx+1}> = 1 when not clipped, real and complex.",
    design_ref="4.15",
    note="The relation proof uses two facts about finite sums as instances (last-term split; congruence of the summand on the range, implemented as a range-aware "
-        "simplifier) and the field instance x (y / x) = y. Orthonormality of the basis and the spectrum claim rest on the modified Gram-Schmidt / Arnoldi theorems (Golub & Van Loan Alg. 10.5.1, Saad Prop. 6.5), ASSUMED and "
+        "simplifier) and the field instance x (y / x) = y. The orthonormality obligations are discharged by sympy's expand/factor_terms normal form over Sum atoms with the hypotheses applied as rewrites of inner-product "
+        "sums (vcgen/symalg.py: trusted normaliser, not an SMT solver). The spectrum claim of arnoldi_eigs and the m = n corner rest on the modified Gram-Schmidt / Arnoldi theorems (Golub & Van Loan Alg. 10.5.1, Saad Prop. 6.5), ASSUMED and "
         "exercised by a bounded stand-in on the real code (n <= 30, well-separated spectra), labelled bounded; exact arithmetic: single-pass MGS loses orthogonality in "
         "floating point on clustered spectra (observed: |Q^H Q - I| = 0.7 after 25 steps on gaussian + 30 I), out of reach; Householder variant and batched starts outside the domain.",
    technique="proxy execution of the real loop closures in an index-function domain with summation atoms; loop contracts by the invariant rule; code-equals-spec-function "
